@@ -666,6 +666,8 @@ func (t *Tree) Compile(file string, args []string, out io.Writer) (err error) {
 	}
 	/* sort imports to satisfy gofmt */
 	slices.Sort(t.Imports)
+	/* a grammar may import a package the generated code imports as well */
+	t.Imports = slices.Compact(t.Imports)
 
 	/* second pass */
 	for _, n := range slices.Collect(t.Iterator()) {
